@@ -32,7 +32,9 @@ TrInit == l = 1 /\ vm = NoVm
 e == Rec[l]
 
 Tolerant == "VMMETA_TOLERANT" \in DOMAIN IOEnv
-Check(ok, what) == ok \/ (Tolerant /\ PrintT(<<"MISMATCH", l, what>>))
+\* (call sites compare with TRUE so that TLC evaluates the whole check as an expression — with short-circuit — instead of
+\* expanding its disjunctions as sub-actions)
+Check(ok, what) == IF ok THEN TRUE ELSE (Tolerant /\ PrintT(<<"MISMATCH", l, what>>))
 
 \* ---- gas / register bookkeeping (same rules as FuelVM.tla / FuelVM_Trace.tla) ----
 CanPay(v, g) == BN!Le(g, R(v, CGAS))
@@ -77,7 +79,7 @@ ImageOk ==
                                         /\ e.tx.inputs[e.ctx.pidx + 1].kind \in TX!PredicateKinds))
 TInit ==
     /\ IsEv(l, "Init")
-    /\ Check(ImageOk, "image")
+    /\ Check(ImageOk, "image") = TRUE
     /\ vm' = [regs |-> [r \in 0..63 |-> e.regs[r + 1]], mem |-> WriteBytes(<<>>, 0, e.stack), slen |-> BLen(e.stack), env |-> e.env,
               frames |-> <<>>, opv |-> <<>>, tx |-> e.tx, ctx |-> e.ctx]
 
@@ -131,7 +133,7 @@ TStep ==
     /\ IsEv(l, "Step")
     /\ LET v     == Poked
            oregs == ObservedRegs(v)
-       IN /\ Check(StepOk(v, oregs), "step")
+       IN /\ Check(StepOk(v, oregs), "step") = TRUE
           /\ vm' = [v EXCEPT !.regs = oregs]
 
 TrNext == (TSeg \/ TInit \/ TStep) /\ l' = l + 1
